@@ -6,6 +6,8 @@ import z3
 from .mir import Mir, Place, MirParseError, strip_generics, match_close, split_top
 from .alg import Fl
 
+class _NoMerge(Exception):
+    pass
 class Unmodelled(Exception):
     """a callee / construct outside the encoding: the query is inconclusive (exit 2)"""
 class BoundExceeded(Exception):
@@ -119,6 +121,8 @@ class VM:
         self.assume_no_overflow = False
         self._resolve_cache = {}
         self.background = []       # global assumptions (axioms) added to every feasibility query
+        self.merge_returns = set() # names of functions whose 'ret' outcomes are merged (ite) instead of forked
+        self.nmerged = 0
         self.trace = False
 
     # ------------------------------------------------------------------ solver
@@ -264,7 +268,7 @@ class VM:
         if m: return int(m.group(2))
         # unit enum variant constants / unit structs: `std::option::Option::<X>::None`, `PhantomData::<..>`
         base = strip_generics(t)
-        segs = base.split('::')
+        segs = [x.strip() for x in base.split('::') if x.strip()]
         if len(segs) >= 2 and segs[-2] in self.enums and segs[-1] in self.enums[segs[-2]]:
             return Enum(self._variant_idx(segs[-2], segs[-1]), segs[-1], (), segs[-2])
         if len(segs) == 1 and re.match(r'^[A-Z]\w*$', segs[0]): return Struct((), segs[0])
@@ -453,7 +457,7 @@ class VM:
             if kind == 'array': return Seq(ops)
             if kind == 'closure': return Closure(rv[2], ops, fn.name)
             if kind == 'adt':
-                base = strip_generics(rv[2]); segs = [s.strip() for s in base.split('::')]
+                base = strip_generics(rv[2]); segs = [s.strip() for s in base.split('::') if s.strip()]
                 if len(segs) >= 2 and segs[-2] in self.enums and segs[-1] in self.enums[segs[-2]]:
                     return Enum(self._variant_idx(segs[-2], segs[-1]), segs[-1], ops, segs[-2])
                 return Struct(ops, segs[-1])
@@ -497,7 +501,7 @@ class VM:
                 if len(hits) == 1: return mir.get(hits[0])
             return None
         base = strip_generics(c)
-        segs = [s.strip() for s in base.split('::')]
+        segs = [s.strip() for s in base.split('::') if s.strip()]
         if len(segs) == 1:
             hits = lookup(None, None, segs[0])
             return mir.get(hits[0]) if len(hits) == 1 else None
@@ -528,7 +532,66 @@ class VM:
         if out is not NotImplemented: return out
         fn = self.resolve_callee(callee)
         if fn is None: raise Unmodelled('callee %s (at %s)' % (callee, span))
+        if fn.name in self.merge_returns:
+            return self.merge_outcomes(list(self.exec_fn(m, fn, args)))
         return self.exec_fn(m, fn, args)
+
+    # ------------------------------------------------------------------ outcome merging (exact: no path is dropped)
+    def _same(self, a, b):
+        if a is b: return True
+        if isinstance(a, Fl) and isinstance(b, Fl): return self._same(a.v, b.v)
+        if is_sym(a) and is_sym(b): return a.eq(b)
+        if isinstance(a, (Struct, Closure)) and isinstance(b, type(a)):
+            return getattr(a, 'ty', None) == getattr(b, 'ty', None) and len(a.f) == len(b.f) and all(self._same(x, y) for x, y in zip(a.f, b.f))
+        if isinstance(a, Enum) and isinstance(b, Enum):
+            return a.idx == b.idx and len(a.f) == len(b.f) and all(self._same(x, y) for x, y in zip(a.f, b.f))
+        if isinstance(a, Seq) and isinstance(b, Seq):
+            return len(a.items) == len(b.items) and all(self._same(x, y) for x, y in zip(a.items, b.items))
+        if is_sym(a) or is_sym(b): return False
+        try: return type(a) == type(b) and a == b
+        except Exception: return False
+
+    def _ite(self, c, a, b):
+        if self._same(a, b): return a
+        if isinstance(a, Fl) and isinstance(b, Fl): return self.alg.ite(c, a, b)
+        if isinstance(a, Struct) and isinstance(b, Struct) and a.ty == b.ty and len(a.f) == len(b.f):
+            return Struct([self._ite(c, x, y) for x, y in zip(a.f, b.f)], a.ty)
+        if isinstance(a, Enum) and isinstance(b, Enum) and a.idx == b.idx and len(a.f) == len(b.f):
+            return Enum(a.idx, a.name, [self._ite(c, x, y) for x, y in zip(a.f, b.f)], a.ty)
+        def z(v):
+            if isinstance(v, bool): return z3.BoolVal(v)
+            if isinstance(v, int): return z3.IntVal(v)
+            if is_sym(v): return v
+            raise _NoMerge()
+        return z3.If(c, z(a), z(b))
+
+    def merge_outcomes(self, outs):
+        rets = [o for o in outs if o[1] == 'ret']; rest = [o for o in outs if o[1] != 'ret']
+        if len(rets) <= 1: return outs
+        pcs = [o[0].pc for o in rets]
+        k = 0
+        while all(len(pc) > k for pc in pcs) and all(pcs[0][k] is pc[k] or (is_sym(pcs[0][k]) and is_sym(pc[k]) and pcs[0][k].eq(pc[k])) for pc in pcs): k += 1
+        conds = [z3.And(*pc[k:]) if len(pc) > k else z3.BoolVal(True) for pc in pcs]
+        try:
+            m0 = rets[0][0].clone(); val = rets[0][2]
+            for (mi, _, vi), ci in zip(rets[1:], conds[1:]):
+                keys = set(m0.mem) | set(mi.mem)
+                for key in keys:
+                    if key not in m0.mem or key not in mi.mem: raise _NoMerge()
+                    m0.mem[key] = self._ite(ci, mi.mem[key], m0.mem[key])
+                val = self._ite(ci, vi, val)
+                for g in set(m0.ghost) | set(mi.ghost):
+                    a, b = m0.ghost.get(g), mi.ghost.get(g)
+                    if g == 'accepts':
+                        if len(b or []) > len(a or []): m0.ghost[g] = list(b)
+                        continue
+                    if not (a is b or a == b): raise _NoMerge()
+                m0.ctr[0] = max(m0.ctr[0], mi.ctr[0])
+            m0.pc = list(pcs[0][:k]) + [z3.simplify(z3.Or(*conds))]
+            self.nmerged += len(rets) - 1
+            return [(m0, 'ret', val)] + rest
+        except _NoMerge:
+            return outs
 
     def call_closure(self, m, clo, args):
         """clo: Closure value, or a Ref to one; args: list of already-untupled arguments"""
